@@ -246,8 +246,15 @@ def run(ctx):
     synth += [(englib.SYNTH_PUNCT[i % 2], englib.gen_api_history(rng, length())) for i in range(n_punct // 3)]
     synth += [(englib.SYNTH_KB[i % 2], englib.gen_kb_history(rng, length())) for i in range(n_punct)]
     synth += [(englib.SYNTH_KB[i % 2], englib.gen_api_history(rng, length())) for i in range(n_punct // 3)]
+    # round 4: ascii_composer / ascii_segmentor in the chains (synth_ascii_*: model diff + oracles; stock: oracles, with the
+    # mode-switch taps that the virtual clock of hook 19b65ff makes deterministic)
+    synth += [(englib.SYNTH_ASCII[i % 2], englib.gen_ascii_history(rng, length())) for i in range(n_punct)]
+    synth += [(englib.SYNTH_ASCII[i % 2], englib.gen_api_history(rng, length())) for i in range(n_punct // 3)]
+    stock += [(englib.STOCK[i % 4], englib.gen_ascii_history(rng, length(), stock=True)) for i in range(n_punct // 2)]
     ctx.coverage["punct_histories"] = {"punct_keys": n_punct, "api_on_punct_schemas": n_punct // 3,
-                                       "key_binder": n_punct, "api_on_key_binder_schemas": n_punct // 3}
+                                       "key_binder": n_punct, "api_on_key_binder_schemas": n_punct // 3,
+                                       "ascii_composer": n_punct, "api_on_ascii_schemas": n_punct // 3,
+                                       "ascii_composer_on_stock_schemas": n_punct // 2}
     ctx.coverage["pattern_histories"] = {"span_cache": 2 * n_pat, "option_toggle": 2 * n_pat,
                                          "switcher_open": n_sw, "no_auto_commit": 2 * (n_sw // 2),
                                          "opencc_data": os.path.isdir(englib.OPENCC)}
@@ -388,7 +395,7 @@ def run(ctx):
                 "is evaluated; non-trivial = a menu with the highlight beyond the first candidate/page, a page shorter than "
                 "page_size, or a preedit whose highlighted part does not start at 0 (earlier segments converted)",
         "samples": samples, "distribution": dict(stats), "op_kinds": dict(opc),
-        "schemas": englib.SYNTH + englib.SYNTH_PUNCT + englib.SYNTH_KB + englib.STOCK, "correspondence_mismatches": len(mism),
+        "schemas": englib.SYNTH + englib.SYNTH_PUNCT + englib.SYNTH_KB + englib.SYNTH_ASCII + englib.STOCK, "correspondence_mismatches": len(mism),
         "oracle_failures_on_impl": len(fails), "aborts": len(aborts), "exhaustive": False,
         "mutation_drills": MUTATION_DRILLS,
     })
